@@ -46,9 +46,13 @@ def check(ck):
         ok = g is not None and unparse(g.func.value) == p[5] and [unparse(a) for a in g.args] == [p[0]]
         ck.ob("outputs.enum_coercer looks the result up in the enum's declared value map", ok, f, g or f.node, construct="enum:lookup")
         gv = repo.func("tartiflette/types/enum.py", "GraphQLEnumType.get_value")
-        rets = FuncView(gv).returns()
-        ck.ob("GraphQLEnumType.get_value is a strict map lookup (a miss raises KeyError)",
-              len(rets) == 1 and unparse(rets[0].value) == f"self._value_map[{gv.positional_params[1]}]", gv, gv.node, construct="enum:get_value")
+        from ..pathtab import outcome_rows as _rows
+        # on every path, with the key exactly as it was handed in (a key normalised first - `.name`, str() - would let the raw
+        # resolver result, which the coercer returns after a successful lookup, be something that is not a declared value)
+        grows = [r_ for r_ in _rows(FuncView(gv)) if r_["exit"] == "return_exit"]
+        ck.ob("GraphQLEnumType.get_value is a strict map lookup of the key it was given (a miss raises KeyError)",
+              bool(grows) and all(r_["ret"] is not None and unparse(r_["ret"]) == f"self._value_map[{gv.positional_params[1]}]" for r_ in grows), gv, gv.node, construct="enum:get_value",
+              detail=str([unparse(r_["ret"]) if r_["ret"] is not None else None for r_ in grows]))
         et = repo.cls("tartiflette/types/enum.py", "GraphQLEnumType")
         ia = et.self_attrs()
         ck.ob("each enum type owns its value map: bound to a fresh dict in __init__, not a class-level dict shared by every enum",
@@ -115,12 +119,15 @@ def possible_type_sets(ck, repo):
     introspection list (shared with C01, C06, C07)."""
     for rel, cls in (("tartiflette/types/interface.py", "GraphQLInterfaceType"), ("tartiflette/types/union.py", "GraphQLUnionType")):
         m = repo.func(rel, f"{cls}.is_possible_type")
-        r = FuncView(m).returns()
+        from ..pathtab import outcome_rows as _rows
         a = m.positional_params[1]
-        ck.ob(f"{cls}.is_possible_type is a membership test on the possible-type set",
-              bool(r) and all(unparse(x.value) in (f"{a}.name in self._possible_types_set", f"{a} in self._possible_types_set") for x in r)
-              and any(unparse(x.value) == f"{a}.name in self._possible_types_set" for x in r), m, m.node,
-              construct=f"possible:{cls}")
+        # resolved on paths: the type is judged as it was given (an unwrapped list or non-null type would make `[Dog]` a possible type
+        # of `Pet` in the interface-conformance clause)
+        r = [unparse(x["ret"]) for x in _rows(FuncView(m)) if x["exit"] == "return_exit" and x["ret"] is not None]
+        ck.ob(f"{cls}.is_possible_type is a membership test on the possible-type set, of the type exactly as given",
+              bool(r) and all(x in (f"{a}.name in self._possible_types_set", f"{a} in self._possible_types_set") for x in r)
+              and any(x == f"{a}.name in self._possible_types_set" for x in r), m, m.node,
+              construct=f"possible:{cls}", detail=str(r))
         c = repo.cls(rel, cls)
         sa = c.self_attrs()
         ck.ob(f"{cls}.__init__ starts with an empty possible-type set and list of its own (members are added at bake time, after extensions)",
@@ -176,7 +183,30 @@ def list_guard(ck, repo):
         ck.ob(f"{name}: iteration happens only for a list", ok2, f, users[0] if users else f.node, construct=f"{name}:iterate-guarded")
 
 
+def _entry_outside_try(ck, repo):
+    """What Engine.execute / Engine.subscribe evaluate *outside* their catch-all cannot fail: the one cached parse call (which
+    catches everything itself, C07.R4) on the request's query exactly as received and the engine's schema - no decoding,
+    conversion or other call on the way (a `bytes.decode`, a normalisation helper ... raising there reaches the caller as an
+    exception instead of an errors-only response)."""
+    for name in ("Engine.execute", "Engine.subscribe"):
+        f = repo.func("tartiflette/engine.py", name)
+        fv = FuncView(f)
+        tries = [t for t in f.node.body if isinstance(t, ast.Try)]
+        outside = []
+        for st in f.node.body:
+            if isinstance(st, (ast.Try, ast.AsyncFor)) or (isinstance(st, ast.Expr) and isinstance(st.value, ast.Constant)):
+                continue   # the catch-all (execute) / the stream of the executor, whose failures are the consumer's (subscribe)
+            outside.append(st)
+        calls = [c for st in outside for c in ast.walk(st) if isinstance(c, (ast.Call, ast.Await, ast.Subscript, ast.BinOp))]
+        pc = [c for c in calls if isinstance(c, ast.Call) and callee_last(c) == "_cached_parse_and_validate_query"]
+        ok = len(tries) == (1 if name == "Engine.execute" else 0) and len(pc) == 1 and [unparse(a) for a in pc[0].args] == [f.positional_params[1], "self._schema"] and not pc[0].keywords and \
+            [c for c in calls if c is not pc[0]] == []
+        ck.ob(f"{name}: outside its catch-all nothing is evaluated but the cached parse of (query as received, self._schema)", ok, f, (calls[0] if calls else f.node),
+              construct=f"engine:outside-try:{name}", detail=str([unparse(c)[:60] for c in calls if not pc or c is not pc[0]]))
+
+
 def _never_raises(ck, repo):
+    _entry_outside_try(ck, repo)
     e = repo.func("tartiflette/engine.py", "Engine.execute")
     ev = FuncView(e)
     c = ev.maybe_call("_query_executor")
